@@ -57,6 +57,9 @@ class Summary:
             if model is not None and not z3.is_true(
                     model.eval(pc, model_completion=True)):
                 continue
+            if isinstance(val, SymBool):
+                val = z3.is_true(model.eval(val.e, model_completion=True)) \
+                    if model is not None else repr(val)
             out.append((kind, jsonable(val)))
         return out
 
@@ -79,10 +82,12 @@ class RoleList(list):
         self._done = False
 
     def _mat(self):
-        if not self._done:
-            self._done = True
-            list.extend(self, [n for n, f in zip(self._names, self._flags)
-                               if f])
+        # re-evaluated on every access: the flags are decided once per path
+        # (the engine remembers decisions), and a nested exploration that
+        # re-runs the code under test must see its own path's roles
+        list.clear(self)
+        list.extend(self, [n for n, f in zip(self._names, self._flags)
+                           if f])
         return self
 
     def __iter__(self):
@@ -268,6 +273,9 @@ class SymCtx:
                     for c in v.chars)
             elif isinstance(v, (SymChoice, SymInt)):
                 raise Unmodelled('observe() of an unconcretised choice')
+            elif isinstance(v, Summary):
+                v = [[k, bool(x) if k == 'ret' else x]
+                     for k, x in v.describe(model)]
             out.append([name, jsonable(v)])
         return out
 
@@ -382,6 +390,9 @@ class ConcreteCtx:
         self.covered[target] = 1
 
     def observe(self, name, value):
+        if isinstance(value, Summary):
+            value = [[k, bool(x) if k == 'ret' else x]
+                     for k, x in value.describe()]
         self.obs.append([name, jsonable(value)])
 
     def require(self, cond, label, key=None, detail=None):
